@@ -336,34 +336,63 @@ def secOf (t : Tr) (mid : Nat) : Sec :=
 def dataSec (mid : Nat) : Sec :=
   { mid := mid, app := true, kind := .audio, dir := .sendrecv, msid := none }
 
-/-- the mid loop of CreateOffer over the transceivers (`nm` = greaterMid + 1) -/
+/-- the mid loop of CreateOffer over the transceivers (`nm` = greaterMid + 1, already above every mid in use) -/
 def assignMids : Nat → List Tr → Nat × List Tr
   | nm, [] => (nm, [])
   | nm, t :: ts =>
     match t.mid with
-    | some m =>
-      let r := assignMids (max nm (m + 1)) ts
+    | some _ =>
+      let r := assignMids nm ts
       (r.1, t :: r.2)
     | none =>
       let r := assignMids (nm + 1) ts
       (r.1, { t with mid := some nm } :: r.2)
 
+/-- `updateGreaterMid` over the m-sections of a description -/
 def bumpMids (nm : Nat) (secs : List Sec) : Nat := secs.foldl (fun nm s => max nm (s.mid + 1)) nm
 
+/-- … over the descriptions held and over every transceiver, whatever its position -/
+def bumpAll (pc : PC) : Nat :=
+  let nm := [pc.curRemote, pc.pendRemote, pc.curLocal, pc.pendLocal].foldl
+    (fun nm d => match d with
+      | some d => bumpMids nm d.secs
+      | none => nm) pc.nextMid
+  pc.trs.foldl (fun nm t => match t.mid with
+    | some m => max nm (m + 1)
+    | none => nm) nm
+
+/-- `answerDirection`: the answer sends only if the offer receives and receives only if the offer sends -/
+def answerDirection (offered local_ : Dir) : Dir :=
+  let send := local_.sending && (offered == .sendrecv || offered == .recvonly)
+  let recv := (local_ == .sendrecv || local_ == .recvonly) && (offered == .sendrecv || offered == .sendonly)
+  match send, recv with
+  | true, true => .sendrecv
+  | true, false => .sendonly
+  | false, true => .recvonly
+  | false, false => .inactive
+
+/-- `dataMediaSectionMid`: the number of sections so far, or the next number no section uses as its mid -/
+def dataMid (secs : List Sec) : Nat :=
+  (((List.range (secs.length + 1)).map (· + secs.length)).find? fun c => !secs.any (·.mid == c)).getD
+    (2 * secs.length + 1)
+
 /-- generateMatchedSDP, the loop over the remote m-sections. `used` lists the positions already consumed
-    (`localTransceivers` shrinks in the Go code). `none` = errPeerConnTranscieverMidNil. -/
-def genMatched (trs : List Tr) : List Sec → List Nat → Option (List Sec × List Nat)
-  | [], used => some ([], used)
-  | s :: rest, used =>
+    (`localTransceivers` shrinks in the Go code). `narrow` (answering): the matched transceiver's direction is
+    narrowed to a legal answer, in the transceiver itself. `none` = errPeerConnTranscieverMidNil. -/
+def genMatched (narrow : Bool) : List Tr → List Sec → List Nat → Option (List Sec × List Nat × List Tr)
+  | trs, [], used => some ([], used, trs)
+  | trs, s :: rest, used =>
     if s.app then
-      (genMatched trs rest used).map fun r => (dataSec s.mid :: r.1, r.2)
+      (genMatched narrow trs rest used).map fun r => (dataSec s.mid :: r.1, r.2)
     else
       match (List.range trs.length).find? (fun i => !used.contains i && (trs[i]?.map (·.mid)) == some (some s.mid)) with
       | none => none
       | some i =>
         match trs[i]? with
         | none => none
-        | some t => (genMatched trs rest (i :: used)).map fun r => (secOf t s.mid :: r.1, r.2)
+        | some t =>
+          let t' : Tr := if narrow then { t with dir := answerDirection s.dir t.dir } else t
+          (genMatched narrow (trs.set i t') rest (i :: used)).map fun r => (secOf t' s.mid :: r.1, r.2)
 
 /-- sections of the transceivers at positions not in `used`, in order (includeUnmatched) -/
 def unmatchedSecs (trs : List Tr) (used : List Nat) : List Sec :=
@@ -373,15 +402,15 @@ def unmatchedSecs (trs : List Tr) (used : List Nat) : List Sec :=
       | some t => t.mid.map (secOf t)
       | none => none
 
-/-- generateMatchedSDP: sections and the positions of the transceivers that were described -/
-def matchedSecs (pc : PC) (trs : List Tr) (r : Desc) (includeUnmatched : Bool) : Option (List Sec) :=
-  match genMatched trs r.secs [] with
+/-- generateMatchedSDP: the sections, and the transceivers (directions narrowed when answering) -/
+def matchedSecs (pc : PC) (trs : List Tr) (r : Desc) (includeUnmatched : Bool) : Option (List Sec × List Tr) :=
+  match genMatched (!includeUnmatched) trs r.secs [] with
   | none => none
-  | some (secs, used) =>
+  | some (secs, used, trs') =>
     let secs := if includeUnmatched then secs ++ unmatchedSecs trs used else secs
     let haveApp := r.secs.any (·.app)
-    if includeUnmatched && pc.dcs != 0 && !haveApp then some (secs ++ [dataSec secs.length])
-    else some secs
+    if includeUnmatched && pc.dcs != 0 && !haveApp then some (secs ++ [dataSec (dataMid secs)], trs')
+    else some (secs, trs')
 
 /-- `setNegotiated` on every sender whose transceiver is described by `secs` -/
 def markDescribed (trs : List Tr) (secs : List Sec) : List Tr :=
@@ -404,17 +433,14 @@ def remoteDesc (pc : PC) : Option Desc :=
 
 def createOffer (pc : PC) : PC × Res :=
   if pc.closed then (pc, .err) else
-  let nm0 := match pc.curRemote with
-    | some r => bumpMids pc.nextMid r.secs
-    | none => pc.nextMid
-  let am := assignMids nm0 pc.trs
+  let am := assignMids (bumpAll pc) pc.trs
   let pc1 := { pc with nextMid := am.1, trs := am.2 }
   let secs? : Option (List Sec) :=
     match pc.curRemote with
     | none =>                                                            -- generateUnmatchedSDP
       let secs := unmatchedSecs am.2 []
-      some (if pc.dcs != 0 then secs ++ [dataSec secs.length] else secs)
-    | some cr => matchedSecs pc am.2 ((remoteDesc pc).getD cr) true
+      some (if pc.dcs != 0 then secs ++ [dataSec (dataMid secs)] else secs)
+    | some cr => (matchedSecs pc am.2 ((remoteDesc pc).getD cr) true).map (·.1)
   match secs? with
   | none => (pc1, .err)
   | some secs =>
@@ -432,8 +458,8 @@ def createAnswer (pc : PC) : PC × Res :=
     else
       match matchedSecs pc pc.trs r false with
       | none => (pc, .err)
-      | some secs =>
-        ({ pc with trs := markDescribed pc.trs secs, lastAnswer := some { offer := false, secs := secs } }, .ok)
+      | some (secs, trs) =>
+        ({ pc with trs := markDescribed trs secs, lastAnswer := some { offer := false, secs := secs } }, .ok)
 
 /-! ### setDescription -/
 
@@ -523,6 +549,8 @@ def adjustDir (remote : Dir) (local_ : Dir) : Dir :=
   | .sendrecv, .sendonly => .sendrecv
   | .sendrecv, .inactive => .recvonly
   | .sendonly, .inactive => .recvonly
+  | .sendonly, .sendrecv => .recvonly
+  | .sendonly, .sendonly => .inactive
   | _, d => d
 
 /-- satisfyTypeAndDirection: position of the transceiver to pluck -/
